@@ -189,6 +189,16 @@ pub fn histories() -> Vec<(String, Cfg, Vec<Op>)> {
             big.extend((0..100_000usize).map(|i| 0x10 + (i % 0xe0) as u8));
             out.push((format!("large-sample/{}", if fast { "fast" } else { "std" }), c, vec![Op::WV { pts: T(0.0), data: Bytes::new(k), key: true }, Op::WV { pts: T(0.04), data: Bytes::new(big), key: false }]));
         }
+        // a 300 KiB video sample scheduled after smaller samples of both tracks (staging buffers,
+        // chunked writes and their flush order on the A/V paths)
+        {
+            let c = Cfg::basic(VCodec::H265, Some(ACodec::Opus), fast);
+            let k = oracle::frames::video_frame(VCodec::H265, true, true, 1, 6).0;
+            let big = oracle::frames::video_frame(VCodec::H265, false, false, 2, 300 * 1024 + 7).0;
+            let small = oracle::frames::video_frame(VCodec::H265, false, false, 3, 9).0;
+            let a = |i: u32| Bytes::new(oracle::frames::audio_frame(ACodec::Opus, i, 40).0);
+            out.push((format!("large-sample-av/{}", if fast { "fast" } else { "std" }), c, vec![Op::WV { pts: T(0.0), data: Bytes::new(k), key: true }, Op::WA { pts: T(0.0), data: a(0) }, Op::WA { pts: T(0.02), data: a(1) }, Op::WV { pts: T(0.04), data: Bytes::new(big), key: false }, Op::WA { pts: T(0.04), data: a(2) }, Op::WV { pts: T(0.08), data: Bytes::new(small), key: false }, Op::WA { pts: T(0.08), data: a(3) }]));
+        }
         // lopsided tracks: one video frame with four audio frames, four video frames with one
         // audio frame (code that indexes one track with the other's position)
         {
@@ -395,11 +405,11 @@ pub fn check(ctx: &Ctx) -> i32 {
             }
         }
         // (b) accept exactly j bytes, then fail: every offset (for the >64 KiB file: every 1021st
-        // offset plus the neighbourhoods of 64 KiB multiples and of both ends)
+        // offset plus the neighbourhoods of every 64 KiB multiple and of both ends)
         let big = clean.accepted.len() > 20_000;
         for j in 0..clean.accepted.len() {
             let near = |x: usize| j + 3 >= x && j <= x + 3;
-            if !big || j % 1021 == 0 || j < 64 || j + 64 >= clean.accepted.len() || near(65536) || near(131072) || near(65536 + 700) {
+            if !big || j % 1021 == 0 || j < 64 || j + 64 >= clean.accepted.len() || near(65536) || near(131072) || near(65536 + 700) || (j + 3) % 65536 <= 6 {
                 scripts.push(Script { answers: vec![], budget: Some(j) });
             }
         }
